@@ -60,7 +60,7 @@ func init() {
 			return uniqueFn(fns, func(f *Fn) bool { return hasCall(c, f.SSA, Call("container/list.New")) })
 		}},
 		"announce.deliver": {"announce", "Receiver.handleAnnounce", func(c *Ctx, fns []*Fn) *ssa.Function {
-			return uniqueFn(fns, func(f *Fn) bool {
+			return c.outermost(uniqueFn(fns, func(f *Fn) bool {
 				found := false
 				instrs(f.SSA, func(in ssa.Instruction) {
 					if s, ok := in.(*ssa.Select); ok {
@@ -72,7 +72,7 @@ func init() {
 					}
 				})
 				return found
-			})
+			}))
 		}},
 		// ---- dagsync ----
 		"latest.set": {"dagsync", "latestSyncHandler.setLatestSync", func(c *Ctx, fns []*Fn) *ssa.Function {
